@@ -112,11 +112,11 @@ Proof. reflexivity. Qed.
 
 (** (a) what an accepted size guarantees: the returned count is the TRUE product of the
     dimensions, it fits in a u32, and the byte size is within the limit *)
-Theorem size_guard_sound es dims L n : L < 2 ^ 53 ->
-  validate_size es dims L = Accept n ->
+Theorem size_guard_sound_pre es dims L n : L < 2 ^ 53 ->
+  validate_size_pre es dims L = Accept n ->
   n = prod dims /\ n <= u32max /\ n * es <= L.
 Proof.
-  intros HL H. unfold validate_size in H.
+  intros HL H. unfold validate_size_pre in H.
   destruct (size_loop (Some 1) dims) as [|[e|]] eqn:Hl.
   - injection H as <-. rewrite (size_loop_zero _ _ Hl). lia.
   - destruct (N.ltb_spec u32max e) as [|He]; [discriminate|].
@@ -153,11 +153,11 @@ Proof.
 Qed.
 
 (** ... and the guard rejects nothing that fits (no false "too large" error) *)
-Theorem size_guard_complete es dims L : L < 2 ^ 53 ->
+Theorem size_guard_complete_pre es dims L : L < 2 ^ 53 ->
   prod dims <= u32max -> prod dims * es <= L ->
-  validate_size es dims L = Accept (prod dims).
+  validate_size_pre es dims L = Accept (prod dims).
 Proof.
-  intros HL Hp Hb. unfold validate_size. pose proof u32max_lt_p53.
+  intros HL Hp Hb. unfold validate_size_pre. pose proof u32max_lt_p53.
   destruct (Exists_dec (fun d => d = 0) dims (fun x => N.eq_dec x 0)) as [Hz|Hnz].
   - rewrite (size_loop_has_zero _ _ Hz). f_equal. clear - Hz.
     induction Hz as [d t ->|d t _ IH]; cbn [prod fold_right]; [lia|]. fold (prod t). rewrite IH. lia.
@@ -176,13 +176,253 @@ Qed.
     shape can have a row length (product of the trailing dimensions) that does not fit in a
     usize: code that multiplies the dimensions of an accepted shape wraps around (release) or
     panics (overflow checks) *)
-Theorem size_guard_refuted :
+Theorem size_guard_refuted_pre :
   exists es dims L, L < 2 ^ 53 /\ Forall (fun d => d <= usize_max) dims /\
-    validate_size es dims L = Accept 0 /\ usize_max < prod (tl dims).
+    validate_size_pre es dims L = Accept 0 /\ usize_max < prod (tl dims).
 Proof.
   exists 1, [0; 10000000000; 10000000000], (2 ^ 32). split; [reflexivity|]. split.
   - repeat constructor; discriminate.
   - split; reflexivity.
+Qed.
+
+(* ---- the current code (commit 1cc30f2): zero dimensions no longer switch the guard off *)
+
+Lemma rnd53_lower x : (2 ^ 53 - 1) * x <= 2 ^ 53 * rnd53 x.
+Proof.
+  destruct (N.lt_ge_cases x (2 ^ 53)) as [Hx|Hx].
+  { rewrite rnd53_small by auto. apply N.mul_le_mono_r. lia. }
+  unfold rnd53.
+  assert (Hpos : 0 < x). { assert (0 < 2 ^ 53) by (apply N.neq_0_lt_0, N.pow_nonzero; lia). lia. }
+  assert (Hk : 53 <= N.log2 x) by (apply N.log2_le_pow2; auto).
+  destruct (N.ltb_spec (N.log2 x) 53) as [Hlt|_]; [lia|].
+  set (k := N.log2 x) in *. set (sh := k - 52).
+  assert (Hspec : 2 ^ k <= x) by (apply (N.log2_spec x Hpos)).
+  assert (Hsh0 : 2 ^ sh <> 0) by (apply N.pow_nonzero; lia).
+  assert (Hsplit : 2 ^ k = 2 ^ 53 * 2 ^ (sh - 1)).
+  { rewrite <- N.pow_add_r. f_equal. unfold sh. lia. }
+  assert (Hsh : 2 ^ sh = 2 * 2 ^ (sh - 1)).
+  { rewrite <- N.pow_succ_r'. f_equal. unfold sh. lia. }
+  pose proof (N.div_mod x (2 ^ sh) Hsh0) as Hdm.
+  pose proof (N.mod_lt x (2 ^ sh) Hsh0) as Hr.
+  set (q := x / 2 ^ sh) in *. set (r := x mod 2 ^ sh) in *. set (h := 2 ^ (sh - 1)) in *.
+  set (P := 2 ^ 53) in *. assert (HP : 1 <= P) by (unfold P; change 1 with (2 ^ 0); apply N.pow_le_mono_r; lia).
+  set (S := 2 ^ sh) in *.
+  destruct ((h <? r) || ((r =? h) && N.odd q)) eqn:Hc.
+  - (* rounds up: the result is above x *)
+    assert (x <= (q + 1) * S) by nia. nia.
+  - (* rounds down by r <= h, and x >= 2^53 * h *)
+    apply orb_false_iff in Hc as [Hc1 Hc2]. apply N.ltb_ge in Hc1.
+    assert (P * r <= x) by nia. nia.
+Qed.
+
+Fixpoint npow (b : N) (k : nat) : N := match k with O => 1 | Datatypes.S k => b * npow b k end.
+
+Lemma npow_pos b k : 1 <= b -> 1 <= npow b k.
+Proof. intros Hb. induction k; cbn [npow]; [lia|nia]. Qed.
+
+(** Bernoulli: (e+1)^(k+1) <= e^(k+1) + (k+1) (e+1)^k *)
+Lemma bernoulli e k : npow (e + 1) (Datatypes.S k) <= npow e (Datatypes.S k) + N.of_nat (Datatypes.S k) * npow (e + 1) k.
+Proof.
+  induction k as [|k IH].
+  - cbn [npow]. lia.
+  - set (A := npow (e + 1) (Datatypes.S k)) in *. set (B := npow e (Datatypes.S k)) in *.
+    set (C := npow (e + 1) k) in *.
+    change (npow (e + 1) (Datatypes.S (Datatypes.S k))) with ((e + 1) * A).
+    change (npow e (Datatypes.S (Datatypes.S k))) with (e * B).
+    assert (HA : A = (e + 1) * C) by reflexivity.
+    replace (N.of_nat (Datatypes.S (Datatypes.S k))) with (N.of_nat (Datatypes.S k) + 1) by lia.
+    set (n := N.of_nat (Datatypes.S k)) in *.
+    assert (e * A <= e * B + n * (e * C)) by nia.
+    assert (e * C <= A) by nia. nia.
+Qed.
+
+(** relative error of the f64 product: c * E^(2m) >= a * P * (E-1)^(2m) after m multiplications *)
+Lemma size_loop_lower l : forall a c, Forall (fun d => d <> 0) l ->
+  size_loop (Some a) l = LVal (Some c) ->
+  a * prod l * npow (2 ^ 53 - 1) (2 * length l) <= c * npow (2 ^ 53) (2 * length l).
+Proof.
+  induction l as [|d t IH]; intros a c Hall H; cbn [size_loop prod fold_right length] in *.
+  - injection H as <-. rewrite Nat.mul_0_r. cbn [npow]. lia.
+  - fold (prod t) in *. inversion Hall as [|? ? Hd Ht]; subst.
+    destruct (N.eqb_spec d 0); [contradiction|].
+    destruct (fmul (Some a) (of_usize d)) as [a'|] eqn:Hm.
+    + specialize (IH a' c Ht H).
+      unfold fmul, of_usize in Hm. apply fin_some in Hm.
+      pose proof (rnd53_lower d) as H1. pose proof (rnd53_lower (a * rnd53 d)) as H2. rewrite <- Hm in H2.
+      replace (2 * Datatypes.S (length t))%nat with (Datatypes.S (Datatypes.S (2 * length t))) by lia.
+      cbn [npow]. set (X := npow (2 ^ 53) (2 * length t)) in *. set (Y := npow (2 ^ 53 - 1) (2 * length t)) in *.
+      set (E := 2 ^ 53) in *. set (e := E - 1) in *. set (rd := rnd53 d) in *. set (pt := prod t) in *.
+      assert (G1 : e * e * (a * d) <= E * E * a') by nia.
+      assert (G2 : e * e * (a * d) * (pt * Y) <= E * E * a' * (pt * Y)) by (apply N.mul_le_mono_r; exact G1).
+      assert (G3 : E * E * (a' * pt * Y) <= E * E * (c * X)) by (apply N.mul_le_mono_l; exact IH).
+      nia.
+    + exfalso. clear - H. revert H. induction t as [|x t IHt]; cbn [size_loop]; [discriminate|].
+      destruct (x =? 0); [discriminate|]. cbn [fmul]. exact IHt.
+Qed.
+
+Lemma loop2_spec dims : forall acc z, exists a,
+  size_loop2 acc z dims = (a, z || negb (forallb (fun d => negb (d =? 0)) dims)) /\
+  size_loop acc (nz dims) = LVal a.
+Proof.
+  induction dims as [|d t IH]; intros acc z; cbn [size_loop2 forallb nz filter].
+  - exists acc. rewrite orb_false_r. split; reflexivity.
+  - fold (nz t). destruct (N.eqb_spec d 0) as [->|Hd]; cbn [negb andb].
+    + destruct (IH acc true) as (a & E1 & E2). exists a. rewrite E1, orb_true_r. split; [reflexivity|exact E2].
+    + destruct (IH (fmul acc (of_usize d)) z) as (a & E1 & E2). exists a. split; [exact E1|].
+      cbn [size_loop]. destruct (N.eqb_spec d 0); [contradiction|exact E2].
+Qed.
+
+Lemma nz_nonzero dims : Forall (fun d => d <> 0) (nz dims).
+Proof.
+  unfold nz. apply Forall_forall. intros x Hx. apply filter_In in Hx as [_ Hx].
+  destruct (N.eqb_spec x 0); [discriminate|assumption].
+Qed.
+
+Lemma nz_id dims : forallb (fun d => negb (d =? 0)) dims = true -> nz dims = dims.
+Proof.
+  induction dims as [|d t IH]; cbn [forallb nz filter]; [reflexivity|]. fold (nz t).
+  intros H. apply andb_prop in H as [H1 H2]. rewrite H1, (IH H2). reflexivity.
+Qed.
+
+Lemma prod_zero dims : forallb (fun d => negb (d =? 0)) dims = false -> prod dims = 0.
+Proof.
+  induction dims as [|d t IH]; cbn [forallb prod fold_right]; [discriminate|]. fold (prod t).
+  destruct (N.eqb_spec d 0) as [->|]; cbn [negb andb]; [lia|]. intros H. rewrite (IH H). lia.
+Qed.
+
+Lemma filter_len_le {A} (f : A -> bool) l : (length (filter f l) <= length l)%nat.
+Proof. induction l as [|x t IH]; cbn [filter length]; [lia|]. destruct (f x); cbn [length]; lia. Qed.
+
+Lemma isize_max_f_eq : isize_max_f = 2 ^ 63.
+Proof. reflexivity. Qed.
+
+(** a computed product of at most 2^63 means a true product below 2^64 (ranks below 2^50) *)
+Lemma lower_fits l c : Forall (fun d => d <> 0) l -> N.of_nat (length l) < 2 ^ 50 ->
+  size_loop (Some 1) l = LVal (Some c) -> c <= 2 ^ 63 -> prod l <= usize_max.
+Proof.
+  intros Hall Hlen Hl Hc. pose proof (size_loop_lower l 1 c Hall Hl) as H. rewrite N.mul_1_l in H.
+  destruct l as [|d t]; [cbn; unfold usize_max; lia|].
+  set (m := length (d :: t)) in *.
+  assert (Hk : exists k, (2 * m)%nat = Datatypes.S k) by (exists (2 * m - 1)%nat; unfold m; cbn [length]; lia).
+  destruct Hk as [k Hk]. rewrite Hk in H.
+  pose proof (bernoulli (2 ^ 53 - 1) k) as HB.
+  replace (2 ^ 53 - 1 + 1) with (2 ^ 53) in HB by reflexivity.
+  assert (HkN : N.of_nat (Datatypes.S k) < 2 ^ 51).
+  { rewrite <- Hk. replace (N.of_nat (2 * m)) with (2 * N.of_nat m) by lia.
+    change (2 ^ 51) with (2 * 2 ^ 50). lia. }
+  change (npow (2 ^ 53) (Datatypes.S k)) with (2 ^ 53 * npow (2 ^ 53) k) in *.
+  pose proof (npow_pos (2 ^ 53) k ltac:(change 1 with (2 ^ 0); apply N.pow_le_mono_r; lia)) as HX.
+  set (X := npow (2 ^ 53) k) in *. set (Y := npow (2 ^ 53 - 1) (Datatypes.S k)) in *.
+  set (n := N.of_nat (Datatypes.S k)) in *. set (P := prod (d :: t)) in *.
+  (* E*X <= Y + n*X and 2n < E give E*X < 2Y *)
+  assert (H2 : 2 ^ 53 * X < 2 * Y).
+  { assert (2 * n < 2 ^ 53) by (change (2 ^ 53) with (4 * 2 ^ 51); lia). nia. }
+  assert (H3 : P * (2 ^ 53 * X) <= 2 * (2 ^ 63 * (2 ^ 53 * X))) by nia.
+  assert (H4 : P <= 2 * 2 ^ 63).
+  { apply (N.mul_le_mono_pos_r _ _ (2 ^ 53 * X)); [nia|]. lia. }
+  destruct (N.eq_dec P (2 * 2 ^ 63)) as [E|NE]; [|unfold usize_max; change (2 * 2 ^ 63) with 18446744073709551616 in *; lia].
+  (* equality is impossible: the inequality H2 is strict *)
+  exfalso. rewrite E in H. nia.
+Qed.
+
+(** (a) the current guard: an accepted size is the true product, fits a u32 and the byte limit, AND
+    the product of the non-zero dimensions fits in a usize even when a zero dimension is present *)
+Theorem size_guard_sound es dims L n : L < 2 ^ 53 -> N.of_nat (length dims) < 2 ^ 50 ->
+  validate_size es dims L = Accept n ->
+  n = prod dims /\ n <= u32max /\ n * es <= L /\ prod (nz dims) <= usize_max.
+Proof.
+  intros HL Hlen H. unfold validate_size in H.
+  destruct (loop2_spec dims (Some 1) false) as (a & E1 & E2). rewrite E1 in H. cbn [orb] in H.
+  destruct a as [e|]; [|discriminate].
+  destruct (forallb (fun d => negb (d =? 0)) dims) eqn:Hz; cbn [negb] in H.
+  - (* no zero dimension: as before *)
+    rewrite (nz_id _ Hz) in *.
+    destruct (N.ltb_spec u32max e) as [|He]; [discriminate|].
+    destruct (fmul (Some e) (of_usize es)) as [sz|] eqn:Hm; [|discriminate].
+    destruct (N.ltb_spec L sz) as [|Hsz]; [discriminate|]. injection H as <-.
+    pose proof u32max_lt_p53.
+    destruct (size_loop_inv dims 1 e ltac:(lia) E2 ltac:(lia)) as (E & H1 & _).
+    assert (Hn : e = prod dims) by lia. split; [exact Hn|]. split; [lia|]. split.
+    + destruct (N.eq_dec es 0) as [->|Hes]; [lia|].
+      destruct (fmul_exact e es sz ltac:(lia) ltac:(lia) Hm ltac:(lia)) as (Es & _). lia.
+    + rewrite <- Hn. unfold usize_max, u32max in *. lia.
+  - (* a zero dimension *)
+    destruct (N.ltb_spec isize_max_f e) as [|He]; [discriminate|]. injection H as <-.
+    rewrite (prod_zero _ Hz). split; [reflexivity|]. split; [unfold u32max; lia|]. split; [lia|].
+    rewrite isize_max_f_eq in He.
+    apply (lower_fits (nz dims) e); auto using nz_nonzero.
+    unfold nz. pose proof (filter_len_le (fun d => negb (d =? 0)) dims). lia.
+Qed.
+
+Lemma prod_le_nz dims : prod dims <= prod (nz dims).
+Proof.
+  induction dims as [|d t IH]; cbn [prod nz filter fold_right]; [lia|]. fold (prod t) (nz t).
+  destruct (N.eqb_spec d 0) as [->|Hd]; cbn [negb]; [lia|]. cbn [prod fold_right]. fold (prod (nz t)). nia.
+Qed.
+
+Lemma prod_nz_pos dims : 1 <= prod (nz dims).
+Proof.
+  pose proof (nz_nonzero dims) as H. induction H; cbn [prod fold_right]; [lia|]. fold (prod l). nia.
+Qed.
+
+Lemma prod_nz_skipn dims : forall k, prod (nz (skipn k dims)) <= prod (nz dims).
+Proof.
+  induction dims as [|d t IH]; intros [|k]; cbn [skipn]; try lia.
+  specialize (IH k). cbn [nz filter]. fold (nz t). destruct (negb (d =? 0)) eqn:E; [|exact IH].
+  cbn [prod fold_right]. fold (prod (nz t)). destruct (N.eqb_spec d 0); [discriminate|].
+  pose proof (prod_nz_pos (skipn k t)). nia.
+Qed.
+
+(** the law that [size_guard_refuted_pre] refutes for the old code holds for the current one: every
+    trailing product of an accepted shape (row length, cell size, ...) fits in a usize *)
+Theorem size_guard_suffixes_fit es dims L n k : L < 2 ^ 53 -> N.of_nat (length dims) < 2 ^ 50 ->
+  validate_size es dims L = Accept n -> prod (skipn k dims) <= usize_max.
+Proof.
+  intros HL Hlen H. destruct (size_guard_sound es dims L n HL Hlen H) as (_ & _ & _ & Hf).
+  pose proof (prod_le_nz (skipn k dims)). pose proof (prod_nz_skipn dims k). lia.
+Qed.
+
+(** the former witness is now refused *)
+Theorem size_guard_witness_refused : validate_size 1 [0; 10000000000; 10000000000] (2 ^ 32) = Reject.
+Proof. reflexivity. Qed.
+
+(** nothing that fits is refused (dimensions without a zero), and an empty shape whose non-zero
+    dimensions multiply to less than 2^53 is accepted *)
+Theorem size_guard_complete es dims L : L < 2 ^ 53 ->
+  Forall (fun d => d <> 0) dims -> prod dims <= u32max -> prod dims * es <= L ->
+  validate_size es dims L = Accept (prod dims).
+Proof.
+  intros HL Hall Hp Hb. unfold validate_size. pose proof u32max_lt_p53.
+  destruct (loop2_spec dims (Some 1) false) as (a & E1 & E2). rewrite E1. cbn [orb].
+  assert (Hz : forallb (fun d => negb (d =? 0)) dims = true).
+  { apply forallb_forall. intros x Hx. rewrite Forall_forall in Hall. specialize (Hall x Hx).
+    destruct (N.eqb_spec x 0); [contradiction|reflexivity]. }
+  rewrite Hz. cbn [negb]. rewrite (nz_id _ Hz) in E2.
+  rewrite (size_loop_exact dims 1 ltac:(lia) Hall ltac:(lia)) in E2.
+  assert (Ea : a = Some (prod dims)) by (rewrite N.mul_1_l in E2; congruence). subst a.
+  destruct (N.ltb_spec u32max (prod dims)); [lia|].
+  assert (Hpp : 1 <= prod dims).
+  { clear - Hall. induction Hall; cbn [prod fold_right]; [lia|]. fold (prod l). nia. }
+  assert (Hes : es < 2 ^ 53) by nia.
+  assert (Hpe : prod dims * es < 2 ^ 53) by lia.
+  unfold fmul, of_usize. rewrite (rnd53_small es Hes), (rnd53_small _ Hpe), (fin_small _ Hpe).
+  destruct (N.ltb_spec L (prod dims * es)); [lia|reflexivity].
+Qed.
+
+Theorem size_guard_complete_zero es dims L : Exists (fun d => d = 0) dims -> prod (nz dims) < 2 ^ 53 ->
+  validate_size es dims L = Accept 0.
+Proof.
+  intros Hex Hp. unfold validate_size.
+  destruct (loop2_spec dims (Some 1) false) as (a & E1 & E2). rewrite E1. cbn [orb].
+  assert (Hz : forallb (fun d => negb (d =? 0)) dims = false).
+  { apply Exists_exists in Hex as (x & Hx & ->). destruct (forallb _ dims) eqn:E; [|reflexivity].
+    rewrite forallb_forall in E. specialize (E 0 Hx). discriminate. }
+  rewrite Hz. cbn [negb].
+  rewrite (size_loop_exact (nz dims) 1 ltac:(lia) (nz_nonzero dims) ltac:(lia)) in E2.
+  assert (Ea : a = Some (prod (nz dims))) by (rewrite N.mul_1_l in E2; congruence). subst a.
+  rewrite isize_max_f_eq.
+  destruct (N.ltb_spec (2 ^ 63) (prod (nz dims))) as [Hgt|]; [|reflexivity].
+  assert (2 ^ 53 < 2 ^ 63) by (apply N.pow_lt_mono_r; lia). lia.
 Qed.
 
 End Rnd.
